@@ -751,6 +751,9 @@ class Fn:
                     dterm = self.op_term(t['d'], env, heap)
                     targets = t['targets']
                     otherwise = t['otherwise']
+                    # logging-enabled tests of the tracing macros: follow the disabled edge only
+                    if t.get('mac') and 'tracing::' in show(dterm) and t['dty'] == 'bool':
+                        dterm = ('const', 'false')
                     # constant?
                     cv = const_value(dterm)
                     if cv is not None:
